@@ -888,6 +888,16 @@ def run(ctx, rep):
             f()
         except Unsupported as u:
             rep.undecided(rule, f"step{i}", f"line {getattr(u.node, 'lineno', 0)}", str(u))
+    # "single and batched": the entries of a batched rate matrix belong to one sample each.  The polynomial rules above decide one sample; that the samples are kept apart is
+    # decided by the C10.P rules on the substitution-model modules (axes addressed from the end, no new first axis on a parameter in the branch chosen by the rank of ANOTHER
+    # parameter, no row of the first sample standing in for all)
+    from props import c10
+    from sa.report import RuleProxy
+    only_sub = lambda mname: mname.startswith('torchtree.evolution.substitution_model')
+    nax = c10.check_front_axes(ctx, RuleProxy(rep, 'C04.L', 'batched::'), only=only_sub)
+    c10.check_first_sample_rows(ctx, RuleProxy(rep, 'C04.L', 'batched::'), rule='C04.L', only=only_sub)
+    if nax < 20:
+        rep.incomplete('C04.L', 'batched::axes', '', f"only {nax} axis operations with a constant axis found in the substitution models")
     # JC69 layout needs the names found by the closed-form step
     try:
         cls = ctx.classes.get(f"{NUC}.JC69")
